@@ -3,7 +3,7 @@
 import json, os, random, re, shutil, sys, time
 sys.path.insert(0, os.path.dirname(os.path.abspath(__file__)))
 import vlib, scen
-import c09
+import c09, c13
 
 PID = "C18"
 
@@ -50,9 +50,16 @@ def main():
         exps, issues, races, samples, states = 0, [], [], [], 0
         nch = 2 if tier == "quick" else 5
         paths = []
-        for k in range(nch):
+        for k in range(nch + 1):
             L = rnd.randint(9, 11)
-            s, base = c09.pattern_chain("c18-%d" % k, seed * 10 + k, [True] * L, 4)
+            if k < nch:
+                s, base = c09.pattern_chain("c18-%d" % k, seed * 10 + k, [True] * L, 4)
+            else:
+                # an asset whose average is unavailable for a while (zero-rated three heights in a row) with conversions into and out of it
+                s = c13.live(seed + 31, 0, tier)
+                s.s["name"] = "c18-zeroavg"
+                s.s.pop("control", None)
+                base = s.s["sched"]["PIP10"]
             doc = s.doc()
             sp = os.path.join(work, "s%d.json" % k)
             json.dump(doc, open(sp, "w"))
